@@ -118,11 +118,16 @@ func corsContainerW(cfg *corsCfg, cnt *corsCounters, second *restful.CrossOrigin
 	u2.SetDynamicRoutes(true)
 	u2.Route(u2.GET("").To(h))
 	u2.Route(u2.PUT("").To(h))
+	// /u1 has a generic DELETE route two levels down; the more specific service /u1/users owns those URLs and has no DELETE
+	u1.Route(u1.DELETE("/{kind}/{id}").To(h))
+	u3 := new(restful.WebService).Path("/u1/users")
+	u3.Route(u3.GET("/{id}").To(h))
+	u3.Route(u3.PUT("/{id}").To(h))
 	if second != nil {
 		u1.Filter(second.Filter)
 		u2.Filter(second.Filter)
 	}
-	c.Add(u1).Add(u2)
+	c.Add(u1).Add(u2).Add(u3)
 	return c, &corsWorld{u1: u1, u2: u2, h: h}
 }
 
@@ -138,6 +143,10 @@ func corsRoutable(url string, grown, shrunk bool) []string {
 			return []string{"GET"}
 		}
 		return []string{"GET", "PUT"}
+	case "/u1/users/5":
+		return []string{"GET", "PUT"}
+	case "/u1/things/5":
+		return []string{"DELETE"}
 	}
 	return []string{}
 }
@@ -445,7 +454,7 @@ func runCors(planPath, outPath string, seed int64) {
 		}
 		reqs := []corsReq{}
 		for j := 0; j < p.ReqsPer; j++ {
-			rq := corsReq{M: pick(r, []string{"GET", "OPTIONS", "OPTIONS", "PUT", "POST"}), URL: pick(r, []string{"/u1", "/u2", "/u3"})}
+			rq := corsReq{M: pick(r, []string{"GET", "OPTIONS", "OPTIONS", "PUT", "POST"}), URL: pick(r, []string{"/u1", "/u2", "/u3", "/u1", "/u2", "/u1/users/5", "/u1/things/5"})}
 			base := pick(r, append(append([]string{}, domPool...), "https://x.example.com", "http://example.com"))
 			if len(cfg.Domains) > 0 && r.Intn(2) == 0 {
 				base = pick(r, cfg.Domains)
@@ -460,6 +469,10 @@ func runCors(planPath, outPath string, seed int64) {
 			}
 			if r.Intn(3) > 0 {
 				rq.Acrm = pick(r, []string{"GET", "PUT", "DELETE", "POST", "PATCH"})
+				if r.Intn(8) == 0 {
+					// method names are case-sensitive: "put" is not PUT
+					rq.Acrm = pick(r, []string{strings.ToLower(rq.Acrm), rq.Acrm[:1] + strings.ToLower(rq.Acrm[1:])})
+				}
 			}
 			nh := r.Intn(4)
 			hs := []string{}
